@@ -528,6 +528,8 @@ where
         .duration_since(UNIX_EPOCH)
         .expect("Time went backwards")
         .as_secs() as i64;
+    #[cfg(pgcat_verif)]
+    let now = crate::verif::clock::unix_secs(now);
 
     for (id, pool) in get_all_pools().iter() {
         for (address, (ban_reason, ban_time)) in pool.get_bans().iter() {
